@@ -68,9 +68,9 @@ theorem closeAll_spec (t : List (LKey × Nat)) : ∀ s : LState,
     · rw [h4]; rfl
     · rw [h5]; rfl
 
-theorem cleanup_empty (v : Variant) (s : LState) (h : Linv s) :
-    (lstep v s .cleanup).table = [] ∧ (lstep v s .cleanup).listening = [] ∧
-    (lstep v s .cleanup).cleaned = true ∧ (lstep v s .cleanup).pending = s.pending := by
+theorem cleanup_empty (fix : Bool) (s : LState) (h : Linv s) :
+    (lstep fix s .cleanup).table = [] ∧ (lstep fix s .cleanup).listening = [] ∧
+    (lstep fix s .cleanup).cleaned = true ∧ (lstep fix s .cleanup).pending = s.pending := by
   obtain ⟨h1, h2, h3, _, _⟩ := closeAll_spec s.table s
   refine ⟨?_, ?_, ?_, ?_⟩
   · show (closeAll s.table s).table = []
@@ -100,7 +100,7 @@ theorem find_id_mem {t : List (LKey × Nat)} {id : Nat} {e : LKey × Nat}
   have h2 := List.mem_of_find?_eq_some h
   exact ⟨h2, by simpa using h1⟩
 
-theorem linv_step (v : Variant) (s : LState) (e : LEv) (h : Linv s) : Linv (lstep v s e) := by
+theorem linv_step (fix : Bool) (s : LState) (e : LEv) (h : Linv s) : Linv (lstep fix s e) := by
   cases e with
   | request k g =>
     simp only [lstep]
@@ -155,23 +155,23 @@ theorem linv_step (v : Variant) (s : LState) (e : LEv) (h : Linv s) : Linv (lste
       subst hk
       exact linv_closeL s k _ h hm
   | cleanup =>
-    obtain ⟨h1, h2, _, _⟩ := cleanup_empty v s h
+    obtain ⟨h1, h2, _, _⟩ := cleanup_empty fix s h
     constructor
     · intro id hid; rw [h2] at hid; cases hid
     · intro k i j hi; rw [h1] at hi; cases hi
 
-theorem linv_run (v : Variant) (evs : List LEv) : ∀ s, Linv s → Linv (lrun v s evs) := by
+theorem linv_run (fix : Bool) (evs : List LEv) : ∀ s, Linv s → Linv (lrun fix s evs) := by
   induction evs with
   | nil => intro s h; exact h
-  | cons e es ih => intro s h; exact ih _ (linv_step v s e h)
+  | cons e es ih => intro s h; exact ih _ (linv_step fix s e h)
 
 /-- released: nothing registered, nothing listening -/
 def Released (s : LState) : Prop := s.table = [] ∧ s.listening = []
 
 /-- closing on an empty table changes nothing that matters -/
-theorem released_step (v : Variant) (s : LState) (e : LEv) (hr : Released s) (hc : s.cleaned = true)
-    (he : v = .fixed ∨ ∀ id, e ≠ .created id) :
-    Released (lstep v s e) ∧ (lstep v s e).cleaned = true := by
+theorem released_step (fix : Bool) (s : LState) (e : LEv) (hr : Released s) (hc : s.cleaned = true)
+    (he : fix = true ∨ ∀ id, e ≠ .created id) :
+    Released (lstep fix s e) ∧ (lstep fix s e).cleaned = true := by
   obtain ⟨ht, hl⟩ := hr
   cases e with
   | request k g =>
@@ -189,13 +189,13 @@ theorem released_step (v : Variant) (s : LState) (e : LEv) (hr : Released s) (hc
   | cleanup =>
     simp [lstep, ht, closeAll, Released, hl]
 
-theorem released_run (v : Variant) (evs : List LEv) : ∀ s, Released s → s.cleaned = true →
-    (v = .fixed ∨ ∀ id, LEv.created id ∉ evs) → Released (lrun v s evs) := by
+theorem released_run (fix : Bool) (evs : List LEv) : ∀ s, Released s → s.cleaned = true →
+    (fix = true ∨ ∀ id, LEv.created id ∉ evs) → Released (lrun fix s evs) := by
   induction evs with
   | nil => intro s h _ _; exact h
   | cons e es ih =>
     intro s hr hc he
-    have h1 := released_step v s e hr hc (by
+    have h1 := released_step fix s e hr hc (by
       rcases he with h | h
       · exact Or.inl h
       · right; intro id hid; exact h id (by rw [hid]; simp))
